@@ -5,9 +5,17 @@ import BoolFn.Parser
 namespace BoolFn.Spec
 open BoolFn
 
-/-- does pattern `p` match at the start of `inp` (whole remaining input, no buffer)? -/
+/-- a word written with identifier characters only -/
+def isWord (p : Pat) : Bool := p.text.all isIdentChar
+
+/-- does pattern `p` match at the start of `inp` (whole remaining input, no buffer)? A pattern that is
+    a *word* (identifier characters only: `and`, `or`, `not`, `true`, `false`, `t`, `f`, `v`, `0`, `1`)
+    is a token only when it stands alone as a whole identifier, i.e. is followed by the end of the
+    input or by a non-identifier character. (The code decides this per pattern with its
+    `LITERAL_IDENTIFIER` regex; the flag it computes is in the regenerated table and
+    `patterns_boundary` shows that it is exactly `isWord`.) -/
 def patMatches (inp : List Char) (p : Pat) : Bool :=
-  prefixFold p.text inp && (!p.identLike || boundaryOk (inp.drop p.text.length))
+  prefixFold p.text inp && (!isWord p || boundaryOk (inp.drop p.text.length))
 
 /-- the longest pattern of the table matching at the start of `inp` (first among equals) -/
 def longestMatch (inp : List Char) : Option Pat :=
